@@ -209,33 +209,7 @@ def run(ctx, sess):
         _bracket(ctx, f, ev, 'jls_bk_fseek', 'jls_bk_ftell', seek_arg=1, allow_zero_test=True)
 
     # ---- C14.6
-    n6 = 0
-    for fn in P.all_functions():
-        if fn.name not in wreach:
-            continue
-        for ev in fn.stores():
-            lhs, rhs, o = ev.store_parts()
-            l0 = strip_casts(lhs)
-            if l0.get('op') != 'sub':
-                continue
-            p = fn.path(l0)
-            if p is None or len(p) < 3 or p[-2] != '.head_offsets':
-                continue
-            n6 += 1
-            ctx.saw(fn)
-            idx = l0['k'][1]
-            # guard: control dependent on head_offsets[idx] == 0
-            guard = False
-            for (bid, label) in control_deps_transitive(fn, ev.block.id):
-                c = fn.blocks[bid].cond
-                for (var, kind, cval) in _elem_zero_facts(fn, c, label):
-                    if var == (tuple(p), show(idx)) and kind == 'eq' and cval == 0:
-                        guard = True
-            # value: X.offset of a chunk written before, or a parameter (then callers are checked)
-            val_ok, vdetail = _offset_of_written_chunk(P, fn, ev, rhs)
-            ctx.ob('C14.6', guard and val_ok, fn.name, 'store to head_offsets[%s]' % show(idx), ev.where(),
-                   'guarded by zero test: %s; value: %s' % (guard, vdetail))
-    ctx.floor('head table stores reachable from writer roots', n6, 2)
+    head_table_rule(ctx, P, wreach, 'C14.6')
 
     # ---- C14.9
     n9 = 0
@@ -405,3 +379,35 @@ def _bracket(ctx, fn, write_ev, seek_name, tell_name, seek_arg=1, allow_zero_tes
            'saved in %s; restored on every success path' % sorted(saved) if ok else
            ('position not saved from %s() before the write' % tell_name if not saved else 'a success return is reachable without restoring the position'),
            w.render() if (saved and w is not None) else None)
+
+
+def head_table_rule(ctx, P, wreach, rule):
+    """a track-head entry changes once, from zero to the offset of a chunk that is already in the file"""
+    n6 = 0
+    for fn in P.all_functions():
+        if fn.name not in wreach:
+            continue
+        for ev in fn.stores():
+            lhs, rhs, o = ev.store_parts()
+            l0 = strip_casts(lhs)
+            if l0.get('op') != 'sub':
+                continue
+            p = fn.path(l0)
+            if p is None or len(p) < 3 or p[-2] != '.head_offsets':
+                continue
+            n6 += 1
+            ctx.saw(fn)
+            idx = l0['k'][1]
+            # guard: control dependent on head_offsets[idx] == 0
+            guard = False
+            for (bid, label) in control_deps_transitive(fn, ev.block.id):
+                c = fn.blocks[bid].cond
+                for (var, kind, cval) in _elem_zero_facts(fn, c, label):
+                    if var == (tuple(p), show(idx)) and kind == 'eq' and cval == 0:
+                        guard = True
+            # value: X.offset of a chunk written before, or a parameter (then callers are checked)
+            val_ok, vdetail = _offset_of_written_chunk(P, fn, ev, rhs)
+            ctx.ob(rule, guard and val_ok, fn.name, 'store to head_offsets[%s]' % show(idx), ev.where(),
+                   'guarded by zero test: %s; value: %s' % (guard, vdetail))
+    ctx.floor('head table stores reachable from writer roots', n6, 2)
+
